@@ -40,6 +40,8 @@ KINDS = {
     "named": ("Makefile", "python"),
     "named2": ("Dockerfile", "python"),
     "unrecnoext": ("NOTES", None),
+    # a file that already declares copyright and licence in a header of its own
+    "hdr": ("i.py", "python"),
 }
 UNREC = ("unrec", "unrecnoext")
 TERMINATOR = {"html": "-->", "c": "*/", "jinja": "#}", "ml": "*)"}
@@ -62,7 +64,9 @@ def write_kind(d, kind, idx):
     if kind in ("named", "named2"):
         (d / f"n{idx}").mkdir(exist_ok=True)
         f = d / f"n{idx}" / name
-    if kind == "badhdr":
+    if kind == "hdr":
+        f.write_text("# SPDX-FileCopyrightText: 2001 Earlier\n#\n# SPDX-License-Identifier: ISC\n\nK1 code\n")
+    elif kind == "badhdr":
         f.write_text("# SPDX-FileCopyrightText: 2001 Old\n# SPDX-License-Identifier: MIT AND OR\n\nK1 code\n")
     elif kind == "bin":
         f.write_bytes(trees.BINARY_BLOB)
@@ -82,9 +86,13 @@ def run_one(res, ctx, root, rng, idx):
         if sib:
             (f.parent / (f.name + ".license")).write_text("SPDX-FileCopyrightText: 1999 Sibling\n")
     cause = rng.choice(["terminator", "terminator", "terminator", "terminator", "template-both", "template-one", "none", "single-line",
-                        "multi-line", "mutex", "style-vs-line-mode"])
+                        "multi-line", "mutex", "style-vs-line-mode", "template-cop-only"])
     dot = rng.choice([None, None, "--force-dot-license", "--fallback-dot-license", "--skip-unrecognised"])
     args = ["-l", "MIT", "--year", "2020"]
+    if cause == "template-cop-only":
+        # only a notice is requested and the template renders notices only: fine for a file without licence so far, not for one
+        # whose header already names one (the regenerated header would lose it)
+        args = ["--year", "2020"]
     holder = "Jane Doe"
     term = None
     if cause == "terminator":
@@ -95,6 +103,8 @@ def run_one(res, ctx, root, rng, idx):
     template = None
     if cause == "template-both":
         template = "dropboth"
+    elif cause == "template-cop-only":
+        template = "droplic"
     elif cause == "template-one":
         template = rng.choice(["droplic", "dropcop", "droplic-commented", "dropboth-commented", "misspelt"])
     if template:
@@ -146,6 +156,9 @@ def run_one(res, ctx, root, rng, idx):
                     usage = True
         if k in UNREC and dot == "--skip-unrecognised" and not sib:
             exp[j] = "skip"
+        elif template and cause == "template-cop-only":
+            # to_license: the header goes to a .license file; an existing sibling here holds a notice only
+            exp[j] = "fail" if (k == "hdr" and not to_license) else ("any" if k == "badhdr" else "ok")
         elif template:
             exp[j] = "fail"
         elif forced:
